@@ -77,7 +77,18 @@ inline MessageRef GenCmd(vf::BS & bs, int depth, const Opts & o, std::string * o
                                  PR_COMMAND_JETTISONDATATREES, 1234, 0, PR_COMMAND_SETDATA, PR_COMMAND_REMOVEDATA, PR_COMMAND_GETDATA, PR_COMMAND_SETPARAMETERS};
    static const char * const NAMES[] = {"SETPARAMETERS", "GETPARAMETERS", "REMOVEPARAMETERS", "SETDATA", "GETDATA", "REMOVEDATA", "JETTISONRESULTS", "INSERTORDEREDDATA", "PING", "KICK", "ADDBANS", "REMOVEBANS", "BATCH", "NOOP", "REORDERDATA", "ADDREQUIRES", "REMOVEREQUIRES",
                                         "SETDATATREES", "GETDATATREES", "JETTISONDATATREES", "what=1234", "what=0", "SETDATA", "REMOVEDATA", "GETDATA", "SETPARAMETERS"};
-   const uint32 ci = bs.u8()%(sizeof(cmds)/sizeof(cmds[0])); const uint32 what = cmds[ci];
+   const uint8_t cb = bs.u8();
+   if ((cb == 255)&&(depth == 0)&&(bs.u8()%6 == 0))
+   {
+      // a BATCH nested far deeper than any sane client would: the server must refuse or survive it (its handlers recurse once per level)
+      static const uint32 DEPTHS[] = {101, 101, 150, 150, 400, 400, 700, 1500}; const uint32 levels = DEPTHS[bs.u8()%8];
+      MessageRef inner = GetMessageFromPool(PR_COMMAND_SETDATA); (void) inner()->AddMessage("deep", GenData(bs));
+      for (uint32 i=0; i<levels; i++) {MessageRef outer = GetMessageFromPool(PR_COMMAND_BATCH); (void) outer()->AddMessage(PR_NAME_KEYS, inner); inner = outer;}
+      vf::Count("command_batch_nested_over_100_levels");
+      if (optDesc) *optDesc = "BATCH nested "+std::to_string(levels)+" levels around a SETDATA";
+      return inner;
+   }
+   const uint32 ci = cb%(sizeof(cmds)/sizeof(cmds[0])); const uint32 what = cmds[ci];
    MessageRef m = GetMessageFromPool(what); std::string d = NAMES[ci];
    const uint32 nk = bs.u8()%3;
    for (uint32 i=0; i<nk; i++) {const String p = GenPath(bs, o); (void) m()->AddString(PR_NAME_KEYS, p); d += std::string(" [")+p()+"]"; if (bs.u8()%3 == 0) {(void) m()->AddMessage(PR_NAME_FILTERS, GenFilter(bs, 0)); d += "+f";}}
@@ -101,6 +112,7 @@ inline MessageRef GenCmd(vf::BS & bs, int depth, const Opts & o, std::string * o
       break;
       case PR_COMMAND_REORDERDATA: {const uint32 n = 1+bs.u8()%2; for (uint32 i=0; i<n; i++) {const String p = GenPath(bs, o); (void) m()->AddString(p, (bs.u8()&1) ? String(CLAUSES[bs.u8()%14]) : String(PR_NAME_REMOVE_FROM_INDEX)); d += std::string(" <")+p()+">";}} break;
       case PR_COMMAND_REMOVEDATA: if (bs.u8()%4 == 0) (void) m()->AddBool(PR_NAME_REMOVE_QUIETLY, true); break;
+      case PR_COMMAND_REMOVEPARAMETERS: {static const char * const RP[] = {"SUBSCRIBE:*", "*", "SUBSCRIBE:/\\*/\\*/\\*/\\*", PR_NAME_DISABLE_SUBSCRIPTIONS, PR_NAME_KEYS, "SUBSCRIBE:a*", PR_NAME_REFLECT_TO_SELF, PR_NAME_MAX_UPDATE_MESSAGE_ITEMS}; const uint8_t k = bs.u8(); if (k%2) {(void) m()->AddString(PR_NAME_KEYS, RP[(k>>1)%8]); d += std::string(" [")+RP[(k>>1)%8]+"]";}} break;     // parameter names as they really occur
       case PR_COMMAND_BATCH: if (depth < 4) {const uint32 n = bs.u8()%4; d += " ("; for (uint32 i=0; i<n; i++) {std::string sd; (void) m()->AddMessage(PR_NAME_KEYS, GenCmd(bs, depth+1, o, &sd)); d += sd+"; ";} d += ")";} break;
       case PR_COMMAND_SETDATATREES: {const uint32 n = bs.u8()%3; for (uint32 i=0; i<n; i++) {MessageRef t = GetMessageFromPool(); (void) t()->AddMessage(PR_NAME_NODEDATA, GenData(bs)); if (bs.u8()&1) {MessageRef kids = GetMessageFromPool(); MessageRef k = GetMessageFromPool(); (void) k()->AddMessage(PR_NAME_NODEDATA, GenData(bs)); (void) kids()->AddMessage("k", k); (void) t()->AddMessage(PR_NAME_NODECHILDREN, kids);} (void) m()->AddMessage(GenPath(bs, o), t);}} break;
       case PR_COMMAND_GETDATATREES: case PR_COMMAND_JETTISONDATATREES: if (bs.u8()&1) (void) m()->AddString(PR_NAME_TREE_REQUEST_ID, (bs.u8()&1) ? "id*" : "id1"); if (bs.u8()%4 == 0) (void) m()->AddInt32(PR_NAME_MAXDEPTH, (int32)bs.u8()-2); break;
